@@ -3,7 +3,10 @@ package props
 import (
 	"bytes"
 	"fmt"
+	"github.com/libsv/go-bk/bec"
+	"math/big"
 	"sync"
+	"verif/internal/ref/sighashref"
 
 	"verif/internal/ref/scriptref"
 	"verif/internal/ref/txref"
@@ -373,6 +376,67 @@ func c06ReturnTailCases(yield func(c06Case), thorough bool) {
 	}
 }
 
+// c06ChosenSCases: signatures with a CHOSEN s - the largest low value n/2, n/2+1, 2^255-1 and
+// 2^255 - for which a public key is recovered so that they are valid. The locking script is the
+// bare OP_CHECKSIG (key and signature both come from the unlocking script), so the signed
+// script code does not depend on the key.
+func c06ChosenSCases(yield func(c06Case), thorough bool) {
+	curve := bec.S256()
+	halfN := new(big.Int).Rsh(curve.N, 1)
+	two255 := new(big.Int).Lsh(big.NewInt(1), 255)
+	ss := []struct {
+		name string
+		s    *big.Int
+	}{{"s=n/2", halfN}, {"s=n/2+1", new(big.Int).Add(halfN, big.NewInt(1))}, {"s=2^255-1", new(big.Int).Sub(two255, big.NewInt(1))}, {"s=2^255", two255}, {"s=n/2-1", new(big.Int).Sub(halfN, big.NewInt(1))}}
+	lock := []byte{0xac}
+	for _, ht := range []uint8{0x41, 0x01, 0xc3} {
+		for era := 0; era < 2; era++ {
+			for mask := 0; mask < 64; mask++ {
+				if mask&8 != 0 { // NULLDUMMY is irrelevant here
+					continue
+				}
+				var f uint32
+				for i, b := range sigFlagBits {
+					if mask&(1<<i) != 0 {
+						f |= b
+					}
+				}
+				if era == 1 {
+					f |= fGenesis
+				}
+				base := scriptCase{Unlock: pushAll([]byte{0x01}, []byte{0x02}), Lock: lock, Flags: f}
+				rt, amount := base.ctx()
+				forkAlgo := ht&0x40 != 0 && f&fForkID != 0
+				var digest []byte
+				if forkAlgo {
+					digest = sighashref.ForkIDDigest(rt, 0, lock, amount, uint32(ht))
+				} else {
+					digest = sighashref.LegacyDigest(rt, 0, lock, uint32(ht))
+				}
+				for _, sv := range ss {
+					comp := make([]byte, 65)
+					comp[0] = 27 + 4 // recovery id 0, compressed
+					curve.Gx.FillBytes(comp[1:33])
+					sv.s.FillBytes(comp[33:65])
+					pk, _, err := bec.RecoverCompact(curve, comp, digest)
+					if err != nil {
+						continue
+					}
+					rb, sb := curve.Gx.Bytes(), sv.s.Bytes()
+					if rb[0]&0x80 != 0 {
+						rb = append([]byte{0}, rb...)
+					}
+					if sb[0]&0x80 != 0 {
+						sb = append([]byte{0}, sb...)
+					}
+					der := bytesJoin([]byte{0x30, byte(4 + len(rb) + len(sb)), 0x02, byte(len(rb))}, rb, []byte{0x02, byte(len(sb))}, sb, []byte{ht})
+					yield(c06Case{scriptCase: scriptCase{Unlock: pushAll(der, pk.SerialiseCompressed()), Lock: lock, Flags: f}, Op: "sig key | CHECKSIG", Sig: sv.name, Key: "recovered", HT: ht})
+				}
+			}
+		}
+	}
+}
+
 func c06MultisigCases(yield func(c06Case), thorough bool) {
 	keys := []keyPair{keyOf(0), keyOf(2), keyOf(3)}
 	keyIdx := []int{0, 2, 3}
@@ -522,7 +586,7 @@ func c06MultisigCases(yield func(c06Case), thorough bool) {
 
 func init() {
 	p := register(&Prop{ID: "C06", Level: "exploration",
-		Rule: "exhaustive product with real ECDSA signatures, every case executed in lockstep against the reference model (CHECKSIG/CHECKMULTISIG written after the node's interpreter, certified on the signature vectors of script_tests.json; digests certified on the sighash vectors): CHECKSIG family: 8 locking-script forms (CHECKSIG, NOT, CHECKSIGVERIFY, OP_CODESEPARATOR before the key / before the opcode / unexecuted / later in the script, P2PKH) x 5 key encodings (compressed, uncompressed, hybrid, truncated, empty) x 17 hash types (12 standard, 5 undefined) x 9 signature kinds (valid, over another tx, by another key, over the other digest algorithm, empty, hash-type byte only, high-S, DER-padded, wrong DER length) x ALL 64 subsets of {STRICTENC, DERSIG, LOW_S, NULLDUMMY, NULLFAIL, SIGHASH_FORKID} x both eras x tx shapes (1 in/1 out, no outputs; thorough: 2 inputs); signature-in-script (exact push and substring); signature checks in scripts that continue after a top-level OP_RETURN with 0..4 raw bytes (script code with a data tail), and signature checks reached after an UNLOCKING script that ends through a top-level OP_RETURN; for CHECKSIG and P2PKH also with the transaction's checked input already recording ANOTHER spent output (other value and script, as left by FromUTXOs or an earlier Execute): a valid signature, and one made for the recorded value instead of the spent one. CHECKMULTISIG family: every m-of-n with 0<=m<=n<=3, every m-tuple over the slot alphabet {valid by key j for every j, empty, type-only, other tx, high-S, a single byte that occurs inside a public key} (hence every order), dummy {empty, 01}, key mutations, 3 opcode forms, uniform and mixed per-signature hash types, 2/5 hash types, 64 flag subsets x both eras. Oracle: verdict and every stack snapshot equal the reference. distinct_nontrivial = distinct (script pair, flags) executions",
+		Rule: "exhaustive product with real ECDSA signatures, every case executed in lockstep against the reference model (CHECKSIG/CHECKMULTISIG written after the node's interpreter, certified on the signature vectors of script_tests.json; digests certified on the sighash vectors): CHECKSIG family: 8 locking-script forms (CHECKSIG, NOT, CHECKSIGVERIFY, OP_CODESEPARATOR before the key / before the opcode / unexecuted / later in the script, P2PKH) x 5 key encodings (compressed, uncompressed, hybrid, truncated, empty) x 17 hash types (12 standard, 5 undefined) x 9 signature kinds (valid, over another tx, by another key, over the other digest algorithm, empty, hash-type byte only, high-S, DER-padded, wrong DER length) x ALL 64 subsets of {STRICTENC, DERSIG, LOW_S, NULLDUMMY, NULLFAIL, SIGHASH_FORKID} x both eras x tx shapes (1 in/1 out, no outputs; thorough: 2 inputs); signature-in-script (exact push and substring); valid signatures with a CHOSEN s (n/2-1, n/2, n/2+1, 2^255-1, 2^255; the public key is recovered from the signature) against the LOW_S rule; signature checks in scripts that continue after a top-level OP_RETURN with 0..4 raw bytes (script code with a data tail), and signature checks reached after an UNLOCKING script that ends through a top-level OP_RETURN; for CHECKSIG and P2PKH also with the transaction's checked input already recording ANOTHER spent output (other value and script, as left by FromUTXOs or an earlier Execute): a valid signature, and one made for the recorded value instead of the spent one. CHECKMULTISIG family: every m-of-n with 0<=m<=n<=3, every m-tuple over the slot alphabet {valid by key j for every j, empty, type-only, other tx, high-S, a single byte that occurs inside a public key} (hence every order), dummy {empty, 01}, key mutations, 3 opcode forms, uniform and mixed per-signature hash types, 2/5 hash types, 64 flag subsets x both eras. Oracle: verdict and every stack snapshot equal the reference. distinct_nontrivial = distinct (script pair, flags) executions",
 	})
 	sp := NewSpace(p, "sigops", c06Check)
 	p.Run = func(r *rep.Run, thorough bool) {
@@ -550,6 +614,7 @@ func init() {
 		s := &Space[c06Case]{P: p, Name: sp.Name, Check: chk}
 		s.Each(r, func(yield func(c06Case)) { c06ChecksigCases(yield, thorough) })
 		s.Each(r, func(yield func(c06Case)) { c06ReturnTailCases(yield, thorough) })
+		s.Each(r, func(yield func(c06Case)) { c06ChosenSCases(yield, thorough) })
 		n1 := r.Evals()
 		s.Each(r, func(yield func(c06Case)) { c06MultisigCases(yield, thorough) })
 		r.Note("checksig_cases", n1)
